@@ -48,7 +48,7 @@ def expect : Shape → List Call → List (List Call)
   | .etod c, evs => expect c (evs.map (degradeCall (caps c)))
   | .deco c, evs => expect c evs
   | .tagger _ _ c, evs => expect c evs
-  | .ffbox _ _ c, evs => expect c evs
+  | .fsink _ _ _, evs => [evs]
   | .tfr c, evs => expect c evs
   | .e2s c, evs => expect c evs
   | .multi cs, evs => expectL cs evs
@@ -138,8 +138,8 @@ def tbtExpect : Option Kind → Option Details → List Call → List (Nat × Op
 mutual
 def isTbtLeaf : Shape → List Bool
   | .tbt => [true]
-  | .sink _ | .tt _ | .text _ => [false]
-  | .etod c | .deco c | .tagger _ _ c | .tfr c | .e2s c | .ffbox _ _ c => isTbtLeaf c
+  | .sink _ | .fsink _ _ _ | .tt _ | .text _ => [false]
+  | .etod c | .deco c | .tagger _ _ c | .tfr c | .e2s c => isTbtLeaf c
   | .multi cs => isTbtLeafL cs
 def isTbtLeafL : List Shape → List Bool
   | [] => []
